@@ -635,6 +635,10 @@ func (fr *Frame) noteEscapes(in ssa.Instruction) {
 func (fr *Frame) instr(in ssa.Instruction) {
 	x := fr.x
 	fr.noteEscapes(in)
+	if p := in.Pos(); p.IsValid() {
+		pos := fr.fn.Prog.Fset.Position(p)
+		fr.curPos = fmt.Sprintf("%s:%d", strings.TrimPrefix(pos.Filename, x.w.root+"/"), pos.Line)
+	}
 	switch i := in.(type) {
 	case *ssa.DebugRef:
 		return
